@@ -129,6 +129,7 @@ func (c *VerifConn) Answer(id int64) VerifAnswer {
 func NewVerifAgg(sh2 *agent.Agent, shardKey, replicaKey int32, withoutCluster bool, denyOld bool, shortWindow int, khAddr string, oldest uint32, n int) *VerifAgg {
 	cfg := DefaultConfigAggregator()
 	cfg.KHAddr = khAddr
+	cfg.DisableRemoteConfig = true
 	cfg.RemoteInitial.ShortWindow = shortWindow
 	cfg.RemoteInitial.DenyOldAgents = denyOld
 	cfg.RemoteInitial.ClusterShardsAddrs = []string{"a", "b", "c"}
@@ -344,4 +345,27 @@ func (v *VerifAgg) InsertOnce(b *VerifBucket, historicInserters int) {
 	ch <- b.b
 	close(ch)
 	<-done
+}
+
+// ---- the real goTicker / goInsert goroutines (time driven) ----
+
+// InitRecentNow: what MakeAggregator does before starting the ticker
+func (v *VerifAgg) InitRecentNow() { _ = v.A.advanceRecentBuckets(time.Now(), true) }
+
+// RawHandler is what MakeAggregator registers as RawSendSourceBucket3
+func (v *VerifAgg) RawHandler() func(ctx context.Context, hctx *rpc.HandlerContext) error {
+	return v.A.handleSendSourceBucket3
+}
+
+// StartTicker runs the real goTicker. It returns when it next handles an own bucket after Shutdown().
+func (v *VerifAgg) StartTicker() { go v.A.goTicker() }
+
+// StartInserter runs one real goInsert on the aggregator's own conveyor (a.bucketsToSend)
+func (v *VerifAgg) StartInserter() {
+	sema := semaphore.NewWeighted(1)
+	_ = sema.Acquire(context.Background(), 1)
+	v.A.mu.Lock()
+	ch := v.A.bucketsToSend
+	v.A.mu.Unlock()
+	go v.A.goInsert(sema, context.Background(), ch, 0)
 }
